@@ -1,6 +1,6 @@
 """Property -> rules table. Each rule callable: (prog, tier, repo) -> [RuleResult]."""
 from .rules import traversal_instances as TI
-from .rules import gate, lookup_unwrap, heap, witness, incremental, optimizer, const_arith, shape, backend, printer_rules, comment_linear, enum_evidence, ssa_shared, lex_bounds, gc_rules, scope
+from .rules import gate, lookup_unwrap, heap, witness, incremental, optimizer, const_arith, shape, backend, printer_rules, comment_linear, enum_evidence, ssa_shared, lex_bounds, gc_rules, scope, eval_order
 
 PROPERTIES = {}
 
@@ -28,8 +28,10 @@ prop('C01', COMMON +
      'generics specialisation, type deduplication, constant-parameter elimination, MIR->LIR, LIR unused-name '
      'elimination, LIR->WASM). ENUM-EVIDENCE: every construction of an unboxed enum variant is guarded by the layout '
      'predicate, and every possibly-true answer of that predicate is dominated by the Some edge of a lookup of the payload '
-     'type\'s completed definition. Does not decide that a visited operand is lowered correctly.',
-     [enum_evidence.run, TI.make(['T-hir', 'T-mir_generics_specialization', 'T-mir_type_deduplication', 'T-mir_constant_param_elimination',
+     'type\'s completed definition. EVAL-ORDER: on no path of the source->HIR lowering is a later child (arguments, right '
+     'operand, match arms, branches) lowered before the earlier one (callee, left operand, scrutinee, condition). Does '
+     'not decide that a visited operand is lowered correctly.',
+     [enum_evidence.run, eval_order.run, TI.make(['T-hir', 'T-mir_generics_specialization', 'T-mir_type_deduplication', 'T-mir_constant_param_elimination',
                'T-lir_lowering', 'T-lune', 'T-wasm'])])
 
 prop('C02', COMMON +
